@@ -186,6 +186,44 @@ func run(c *mon.Ctx) {
 			}
 		}
 	})
+	// the functions are functions of their two arguments: the answer does not depend on the call made just
+	// before (receivers that differ by multiples of 2^31, 2^32 against the same argument; the same pair again)
+	c.Stream("call-sequences", c.N(2000, 2000000), func(i int, r *gen.Rand) {
+		f := r.Uint64() & maxV
+		a := r.Uint64() & maxV
+		if r.Chance(3) {
+			a = nb[r.Intn(len(nb))]
+		}
+		step := r.PickU64([]uint64{1 << 31, 1 << 32, 3 << 31, 1 << 30, 1 << 16, 1})
+		b := (a + step) & maxV
+		F, A, B := gots.PTS(f), gots.PTS(a), gots.PTS(b)
+		unrelated := func() {
+			u, v := gots.PTS(r.Uint64()&maxV), gots.PTS(r.Uint64()&maxV)
+			u.DurationFrom(v)
+			u.After(v)
+			u.RolledOver(v)
+			u.GreaterOrEqual(v)
+		}
+		unrelated()
+		d1, af1, ro1, ge1 := B.DurationFrom(F), B.After(F), B.RolledOver(F), B.GreaterOrEqual(F) // asked after an unrelated pair
+		unrelated()
+		A.DurationFrom(F)
+		A.After(F)
+		A.RolledOver(F)
+		A.GreaterOrEqual(F)
+		d2, af2, ro2, ge2 := B.DurationFrom(F), B.After(F), B.RolledOver(F), B.GreaterOrEqual(F) // asked right after the pair (a, f)
+		unrelated()
+		F.DurationFrom(A)
+		d3 := F.DurationFrom(B)
+		c.Eval(3)
+		if d1 != d2 || af1 != af2 || ro1 != ro2 || ge1 != ge2 {
+			c.Fail("sequence:answer-depends-on-previous-call", fmt.Sprintf("%d.DurationFrom/After/RolledOver/GreaterOrEqual(%d) = %d/%v/%v/%v when asked first and %d/%v/%v/%v when asked right after the same questions for %d", b, f, d1, af1, ro1, ge1, d2, af2, ro2, ge2, a), wit{P: b, Q: f, Note: fmt.Sprintf("the call in between had receiver %d", a)})
+		}
+		if d3 != d1 {
+			c.Fail("duration:symmetric", fmt.Sprintf("p.DurationFrom(q)=%d but q.DurationFrom(p)=%d (asked right after q.DurationFrom(%d))", d1, d3, a), wit{P: b, Q: f})
+		}
+		c.Class(fmt.Sprintf("call-sequence/step=%d", step>>16))
+	})
 	c.Stream("random-pairs", c.N(2000, 6000000), func(i int, r *gen.Rand) {
 		for k := 0; k < 500; k++ {
 			p, q := r.Uint64()&maxV, r.Uint64()&maxV
